@@ -53,6 +53,11 @@ func transformList(c *core.Ctx, k *gen.Kit, schema []byte, recs []gen.Rec, o gen
 	if err != nil {
 		return nil, "schema rejected: " + err.Error(), input
 	}
+	if c.R.Chance(1, 3) {
+		// somebody else's records go through the process-wide pools and caches first
+		omni.RunForeign()
+		c.Inc("lists_transformed_after_foreign_transforms")
+	}
 	tr := omni.RunAll(s, bytes.NewReader(input), omni.RunOpts{MaxReads: len(recs) + 10})
 	reads := tr.Reads()
 	if len(reads) == 0 || reads[len(reads)-1].Class != omni.EOF {
